@@ -5,12 +5,14 @@ import (
 	"encoding/json"
 	"fmt"
 	"math/rand/v2"
+	"strings"
 
 	pipeline "github.com/buildkite/go-pipeline"
 	"github.com/buildkite/go-pipeline/warning"
 
 	"verif/doc"
 	"verif/gen"
+	"verif/refmodel"
 	"verif/run"
 )
 
@@ -71,73 +73,110 @@ func checkC09(c *run.Ctx) {
 		first := modelToDoc(p)
 		c.Feature(d.FeatureVector())
 
-		// Determinism: repeated marshalling is byte-identical.
-		jb, err := safeJSONMarshal(p)
-		if err != nil {
-			viol("json.Marshal: "+err.Error(), nil)
-			return
-		}
-		for k := 1; k < reps; k++ {
-			jb2, err := safeJSONMarshal(p)
-			if err != nil || !bytes.Equal(jb, jb2) {
-				viol("two JSON marshals of one pipeline differ", map[string]any{"a": clip(string(jb), 3000), "b": clip(string(jb2), 3000)})
-				return
-			}
-		}
-		c.Count("determinism_json_marshals", reps)
-		jn, err := doc.FromJSON(jb)
-		if err != nil {
-			viol("JSON output unreadable: "+err.Error(), nil)
-			return
-		}
-		tricky := 0
-		jn.Walk(func(x *doc.Node) {
-			if x.Kind == doc.KStr && !doc.PlainSafe(x.Str) {
-				tricky++
-			}
-		})
-
-		// JSON leg.
-		p2, err2 := parseText(string(jb))
-		if err2 != nil && !warning.Is(err2) {
-			viol("JSON marshalling is rejected on re-parse: "+err2.Error(), map[string]any{"json": clip(string(jb), 6000)})
-			return
-		}
-		if diff := doc.Equal(first, modelToDoc(p2), modelEq); diff != "" {
-			viol("re-parsing the JSON marshalling gives a different pipeline: "+diff, map[string]any{"json": clip(string(jb), 6000)})
-			return
-		}
-		c.Count("json_legs", 1)
-		c.Count("tricky_strings_through_json_leg", tricky)
-
-		// YAML leg.
-		if leadingWSMultiline(jn) {
-			c.Count("yaml_legs_skipped_leading_ws_multiline", 1)
-		} else {
-			yb, err := safeYAMLMarshal(p)
+		var jb []byte
+		legs := func(stage string, first *doc.Node) bool {
+			// Determinism: repeated marshalling is byte-identical.
+			var err error
+			jb, err = safeJSONMarshal(p)
 			if err != nil {
-				viol("yaml.Marshal: "+err.Error(), nil)
-				return
+				viol(stage+"json.Marshal: "+err.Error(), nil)
+				return false
 			}
 			for k := 1; k < reps; k++ {
-				yb2, err := safeYAMLMarshal(p)
-				if err != nil || !bytes.Equal(yb, yb2) {
-					viol("two YAML marshals of one pipeline differ", map[string]any{"a": clip(string(yb), 3000), "b": clip(string(yb2), 3000)})
-					return
+				jb2, err := safeJSONMarshal(p)
+				if err != nil || !bytes.Equal(jb, jb2) {
+					viol(stage+"two JSON marshals of one pipeline differ", map[string]any{"a": clip(string(jb), 3000), "b": clip(string(jb2), 3000)})
+					return false
 				}
 			}
-			c.Count("determinism_yaml_marshals", reps)
-			p3, err3 := parseText(string(yb))
-			if err3 != nil && !warning.Is(err3) {
-				viol("YAML marshalling is rejected on re-parse: "+err3.Error(), map[string]any{"yaml": clip(string(yb), 6000)})
-				return
+			c.Count("determinism_json_marshals", reps)
+			jn, err := doc.FromJSON(jb)
+			if err != nil {
+				viol(stage+"JSON output unreadable: "+err.Error(), nil)
+				return false
 			}
-			if diff := doc.Equal(first, modelToDoc(p3), modelEq); diff != "" {
-				viol("re-parsing the YAML marshalling gives a different pipeline: "+diff, map[string]any{"yaml": clip(string(yb), 6000)})
-				return
+			tricky := 0
+			jn.Walk(func(x *doc.Node) {
+				if x.Kind == doc.KStr && !doc.PlainSafe(x.Str) {
+					tricky++
+				}
+			})
+
+			// JSON leg.
+			p2, err2 := parseText(string(jb))
+			if err2 != nil && !warning.Is(err2) {
+				viol(stage+"JSON marshalling is rejected on re-parse: "+err2.Error(), map[string]any{"json": clip(string(jb), 6000)})
+				return false
 			}
-			c.Count("yaml_legs", 1)
-			c.Count("tricky_strings_through_yaml_leg", tricky)
+			p2doc := modelToDoc(p2)
+			if first != nil {
+				if diff := doc.Equal(first, p2doc, modelEq); diff != "" {
+					viol(stage+"re-parsing the JSON marshalling gives a different pipeline: "+diff, map[string]any{"json": clip(string(jb), 6000)})
+					return false
+				}
+			}
+			c.Count("json_legs", 1)
+			c.Count("tricky_strings_through_json_leg", tricky)
+
+			// YAML leg.
+			if leadingWSMultiline(jn) {
+				c.Count("yaml_legs_skipped_leading_ws_multiline", 1)
+			} else {
+				yb, err := safeYAMLMarshal(p)
+				if err != nil {
+					viol(stage+"yaml.Marshal: "+err.Error(), nil)
+					return false
+				}
+				for k := 1; k < reps; k++ {
+					yb2, err := safeYAMLMarshal(p)
+					if err != nil || !bytes.Equal(yb, yb2) {
+						viol(stage+"two YAML marshals of one pipeline differ", map[string]any{"a": clip(string(yb), 3000), "b": clip(string(yb2), 3000)})
+						return false
+					}
+				}
+				c.Count("determinism_yaml_marshals", reps)
+				p3, err3 := parseText(string(yb))
+				if err3 != nil && !warning.Is(err3) {
+					viol(stage+"YAML marshalling is rejected on re-parse: "+err3.Error(), map[string]any{"yaml": clip(string(yb), 6000)})
+					return false
+				}
+				if first != nil {
+					if diff := doc.Equal(first, modelToDoc(p3), modelEq); diff != "" {
+						viol(stage+"re-parsing the YAML marshalling gives a different pipeline: "+diff, map[string]any{"yaml": clip(string(yb), 6000)})
+						return false
+					}
+				} else if diff := doc.Equal(p2doc, modelToDoc(p3), modelEq); diff != "" {
+					viol(stage+"the JSON and the YAML marshalling of one pipeline re-parse to different pipelines: "+diff, map[string]any{"json": clip(string(jb), 6000), "yaml": clip(string(yb), 6000)})
+					return false
+				}
+				c.Count("yaml_legs", 1)
+				c.Count("tricky_strings_through_yaml_leg", tricky)
+			}
+
+			return true
+		}
+		if !legs("", first) {
+			return
+		}
+		// The marshalling describes the pipeline as it is now: after the library's own interpolation has changed
+		// it (env block renamed and rewritten in place, strings and keys everywhere else replaced), repeated
+		// marshalling is again byte-identical and both formats again carry the same data - whatever was marshalled
+		// from the same object before. (The interpolated object need not be in normal form - a typed field emptied
+		// by expansion lets a lower-priority spelling kept among the unknown fields take its place on re-parse - so
+		// the two re-parsed pipelines are compared with each other, not with the object.)
+		if mix(i, 7, 3) == 0 {
+			var ierr error
+			if pi := run.Guard(func() {
+				ierr = p.Interpolate(refmodel.NewEnv(false, map[string]string{"X": "xv", "Y": "y y", "a": "1"}), false)
+			}); pi == nil && ierr == nil {
+				c.Count("second_round_trips_after_interpolation", 1)
+				if !legs("after interpolating the pipeline that was marshalled before: ", nil) {
+					return
+				}
+			} else {
+				c.Count("second_round_trips_skipped_interpolation_failed", 1)
+			}
+			return // the stand-alone decoders are exercised on pipelines in normal form (the other two thirds)
 		}
 
 		// Stand-alone decoders.
@@ -199,6 +238,52 @@ func checkC09(c *run.Ctx) {
 		if c.WantSample() && d.NCommand > 0 {
 			c.Sample(map[string]any{"document": clip(rd.Text, 1200), "json": clip(string(jb), 1200)})
 		}
+	})
+	// Scale: the normal form is longer than the document it came from (plugin sources written in full, aliases
+	// expanded, block style): documents below 1 MiB whose marshalling runs to several MiB, and documents beyond
+	// 1 MiB themselves, are fixpoints like the small ones.
+	c.Phase("scale", func() {
+		type big struct {
+			name string
+			text string
+		}
+		var docs []big
+		for _, n := range []int{2000, 11000, 40000, 120000}[:c.N(2, 4)] {
+			var b strings.Builder
+			b.WriteString(`{"steps":[`)
+			for i := 0; i < n; i++ {
+				if i > 0 {
+					b.WriteByte(',')
+				}
+				fmt.Fprintf(&b, `{"command":"echo step %d x x x","label":"l%d","extra_%d":%d,"plugins":["docker#v%d"]}`, i, i, i%7, i, i%9)
+			}
+			b.WriteString("]}")
+			docs = append(docs, big{fmt.Sprintf("%d steps with short plugin sources, compact JSON", n), b.String()})
+		}
+		for _, n := range []int{500, 4000, 30000}[:c.N(2, 3)] {
+			var b strings.Builder
+			b.WriteString("shared: &cfg\n")
+			for k := 0; k < 12; k++ {
+				fmt.Fprintf(&b, "  setting_%d: value of setting number %d\n", k, k)
+			}
+			b.WriteString("steps:\n")
+			for i := 0; i < n; i++ {
+				fmt.Fprintf(&b, "  - command: make %d\n    plugins:\n      - cache#v1: *cfg\n", i)
+			}
+			docs = append(docs, big{fmt.Sprintf("%d steps each holding an alias of one anchored mapping, YAML", n), b.String()})
+		}
+		c.Parallel("scale", len(docs)*2, func(i int, r *rand.Rand) {
+			d := docs[i/2]
+			leg := []string{"json", "yaml"}[i%2]
+			bad, msg := c09Roundtrip(d.text, leg)
+			c.Eval(1)
+			c.Feature("scale", i)
+			c.Count("scale_round_trips", 1)
+			c.Max("largest_source_document_bytes", int64(len(d.text)))
+			if bad {
+				c.Violation(run.CaseID("scale", i), map[string]any{"what": fmt.Sprintf("%s (%d bytes), %s leg: %s", d.name, len(d.text), leg, msg), "document_head": clip(d.text, 600)})
+			}
+		})
 	})
 	// Nesting depth: the normal form sits one level deeper than the legacy spellings (a bare step list becomes
 	// `steps`, a bare-string plugin a one-entry object, a cache path a mapping), so whatever depth the first parse
